@@ -494,6 +494,17 @@ class MockIncludeDirective:
         source = self.renderer.document["source"]
         rsource = self.renderer.reporter.source
         line_func = getattr(self.renderer.reporter, "get_source_and_line", None)
+
+        # guard against circular inclusion (as the docutils include directive does)
+        include_chain: list[str] = self.renderer.md_env.setdefault(
+            "include_chain", [os.path.abspath(source)]
+        )
+        if os.path.abspath(path) in include_chain:
+            chain = "\n> ".join([str(path), *reversed(include_chain)])
+            raise DirectiveError(
+                2, f'Directive "{self.name}": circular inclusion:\n{chain}'
+            )
+        include_chain.append(os.path.abspath(path))
         try:
             self.renderer.document["source"] = str(path)
             self.renderer.reporter.source = str(path)
@@ -514,6 +525,7 @@ class MockIncludeDirective:
                 heading_offset=self.options.get("heading-offset", 0),
             )
         finally:
+            include_chain.pop()
             self.renderer.document["source"] = source
             self.renderer.reporter.source = rsource
             self.renderer.md_env.pop("relative-images", None)
